@@ -75,7 +75,10 @@ class OperatorTable(Expression):
         return self.operands.always_succeeds()
 
     def can_partially_succeed(self):
-        return not self.always_succeeds() and self.operands.can_partially_succeed()
+        if self.always_succeeds():
+            return False
+        # A prefix operator can be consumed before the operand fails.
+        return bool(self.prefixes) or self.operands.can_partially_succeed()
 
     def complain(self):
         return 'Unexpected input'
@@ -110,10 +113,10 @@ class OperatorTable(Expression):
                 out += (inner_checkpoint << POS)
 
             with utils.if_fails(out, flags, self.operands):
-                if self.operands.can_partially_succeed():
-                    # If we have a result, then backtrack to the checkpoint.
-                    with out.IF(operand_stack):
-                        out += (POS << outer_checkpoint)
+                # If we have a result, then backtrack to the checkpoint. (We may
+                # have consumed an infix operator or some prefix operators.)
+                with out.IF(operand_stack):
+                    out += (POS << outer_checkpoint)
                 out += BREAK
 
             # OK, we have an operand.
